@@ -1,0 +1,118 @@
+//go:build verif
+
+package miner
+
+// Verification hooks of the round-protocol trace family (/verif, family "roundtrace").
+// Build tag `verif` only; add-only: read-only views of unexported round / chain fields and
+// non-blocking reads of the chain's own work queues, so that a harness can play the part of the
+// message / block-verify / notarization workers one step at a time. No behaviour of their own.
+
+import (
+	"context"
+	"sort"
+
+	"0chain.net/chaincore/block"
+)
+
+// VerifRTRoundView is a read-only view of the unexported part of a miner round.
+type VerifRTRoundView struct {
+	Collecting   bool     // verificationCancelf != nil (block collection for verification running)
+	Generating   bool     // generationCancelf != nil
+	CacheParties []string // vrfSharesCache: party id of every cached share (sorted)
+	CacheTocs    []int    // ... and its round timeout count (same order)
+	TicketBlocks []string // verificationTickets collected on the round: block id (sorted by block, verifier)
+	TicketFrom   []string // ... and verifier id (same order)
+	ToVerify     int      // len(blocksToVerifyChannel)
+}
+
+// VerifRTView returns the view of the round.
+func (r *Round) VerifRTView() VerifRTRoundView {
+	var v VerifRTRoundView
+	r.cancelGuard.RLock()
+	v.Collecting = r.verificationCancelf != nil
+	v.Generating = r.generationCancelf != nil
+	v.ToVerify = len(r.blocksToVerifyChannel)
+	r.cancelGuard.RUnlock()
+
+	r.roundGuard.RLock()
+	cache := r.vrfSharesCache
+	type tk struct{ b, v string }
+	var tks []tk
+	for _, bvt := range r.verificationTickets {
+		tks = append(tks, tk{bvt.BlockID, bvt.VerifierID})
+	}
+	r.roundGuard.RUnlock()
+	sort.Slice(tks, func(i, j int) bool {
+		if tks[i].b != tks[j].b {
+			return tks[i].b < tks[j].b
+		}
+		return tks[i].v < tks[j].v
+	})
+	for _, t := range tks {
+		v.TicketBlocks = append(v.TicketBlocks, t.b)
+		v.TicketFrom = append(v.TicketFrom, t.v)
+	}
+	if cache != nil {
+		shares := cache.getAll()
+		sort.Slice(shares, func(i, j int) bool { return shares[i].GetParty().GetKey() < shares[j].GetParty().GetKey() })
+		for _, s := range shares {
+			v.CacheParties = append(v.CacheParties, s.GetParty().GetKey())
+			v.CacheTocs = append(v.CacheTocs, s.GetRoundTimeoutCount())
+		}
+	}
+	return v
+}
+
+// VerifRTPopBlockMessage takes the next message out of the block message channel (what MessageWorker
+// reads), or returns nil when the channel is empty.
+func (mc *Chain) VerifRTPopBlockMessage() *BlockMessage {
+	select {
+	case m := <-mc.blockMessageChannel:
+		return m
+	default:
+		return nil
+	}
+}
+
+// VerifRTPopVerifyBlock takes the next block out of the block-verify queue (what BlockVerifyWorkers read).
+func (mc *Chain) VerifRTPopVerifyBlock() *block.Block {
+	select {
+	case b := <-mc.blockVerifyC:
+		return b
+	default:
+		return nil
+	}
+}
+
+// VerifRTPopNotarization takes the next notarization out of the queue NotarizationProcessWorker reads.
+func (mc *Chain) VerifRTPopNotarization() *Notarization {
+	select {
+	case n := <-mc.notarizationBlockProcessC:
+		return n
+	default:
+		return nil
+	}
+}
+
+// VerifRTQueues returns the lengths of the three work queues.
+func (mc *Chain) VerifRTQueues() (messages, verify, notarizations int) {
+	return len(mc.blockMessageChannel), len(mc.blockVerifyC), len(mc.notarizationBlockProcessC)
+}
+
+// VerifRTNotarizing reports the state of the "previous block notarization" bookkeeping for a block hash:
+// running = a verification task is in flight, known = a result is cached, result = the cached result.
+func (mc *Chain) VerifRTNotarizing(hash string) (running, known, result bool) {
+	mc.nbmMutex.Lock()
+	_, running = mc.notarizingBlocksTasks[hash]
+	mc.nbmMutex.Unlock()
+	if v, err := mc.notarizingBlocksResults.Get(hash); err == nil {
+		known, result = true, v.(bool)
+	}
+	return
+}
+
+// VerifRTRestartRoundEvent publishes a restart-round event (what restartRound does first): goroutines
+// blocked in waitNotAhead give up. A harness uses it to retire the waiters of a finished history.
+func (mc *Chain) VerifRTRestartRoundEvent(ctx context.Context) {
+	mc.sendRestartRoundEvent(ctx)
+}
